@@ -138,6 +138,7 @@ type Unit struct {
 	Stub     bool
 	Ops      []Op
 	Env      []string // extra environment for the tool (nil: sanitised)
+	Previous string   // content already at the -o path before the run ("" = the path does not exist)
 
 	Run        cli.Run
 	Accepted   bool
@@ -252,6 +253,9 @@ func (l *Lab) generate(u *Unit) {
 	dir := l.unitDir(u)
 	_ = os.MkdirAll(dir, 0o755)
 	out := filepath.Join(dir, "gen.go")
+	if u.Previous != "" {
+		_ = os.WriteFile(out, []byte(u.Previous), 0o644)
+	}
 	args := []string{"build"}
 	pats := u.Patterns
 	if pats == nil {
